@@ -20,12 +20,16 @@ SPEC = {
     'entry': {'system': 'run_proofs'},
     'design_ref': 'DESIGN.md §6 C11',
     'assumptions': [
-        'atomicity granularity of the header-proof model: event-loop code between two awaits is atomic; a worker-thread '
-        'read (DB.read_headers) is one atomic step that sees DB.state.height as it is then; DB.flush_backup is cut into '
-        'its two effects on readers (DB.state lowered, header_mc.truncate) with arbitrary event-loop steps and reads in '
-        'between.  Bytecode-level thread preemption INSIDE MerkleCache.truncate (truncations += 1 / self.length = / '
-        'del self.level[...] run in the worker thread while the event loop thread may run coroutine code between those '
-        'statements) and inside read_headers (state.height sampled, file read later) is not modelled',
+        'atomicity granularity of the header-proof model: event-loop code between two awaits is atomic (one thread); a '
+        'worker-thread read (DB.read_headers) is one atomic step that sees DB.state.height as it is then; a back-out is cut, '
+        'per block, into its two effects on readers - DB.state lowered (one attribute store, in the worker thread of '
+        'backup_block / flush_backup) and header_mc.truncate (on the event-loop thread, in BlockProcessor.backup_and_truncate '
+        'after the awaited job, under the state lock and inside the shield) - with arbitrary event-loop steps and reads in '
+        'between.  That no MerkleCache code runs off the event-loop thread is NOT assumed: suite headercache measures on every '
+        'run on which thread each effect happens (derive_placement) and its preemption probe stops either thread before '
+        'every line of MerkleCache code it executes (sys.settrace) while the other thread serves a whole request / runs a whole '
+        'back-out job; with the truncation in the worker thread both directions give a failing schedule (F23, fixed).  '
+        'Still not modelled: thread preemption inside read_headers (state.height sampled, file read later)',
         'the header cache has been initialised consistently with the visible chain (MerkleCache.initialize finished; C12 '
         'cache_init) before the first modelled event; initialize() running concurrently with a back-out below its '
         'length (deeper than REORG_LIMIT) is outside the model',
@@ -63,8 +67,8 @@ SPEC = {
                   'counterexamples for the unfixed variants incl. F20).  Header half: the Lean model has ANY NUMBER of '
                   'concurrent block.header(height, cp) requests, each a program counter over every await of '
                   'MerkleCache.branch_and_root/_extend_to/_level_for with each read cut into issue / worker-thread '
-                  'perform against the hashes visible then / deliver, back-outs cut into their two effects in the order '
-                  'of DB.flush_backup, and new blocks.  Proved for all event sequences (unbounded, by an inductive '
+                  'perform against the hashes visible then / deliver, back-outs cut, per block, into their two effects (DB.state lowered by the worker thread, header_mc.truncate by the event-loop thread) in the order measured '
+                  'from the source, and new blocks.  Proved for all event sequences (unbounded, by an inductive '
                   'invariant): every answer is the from-scratch branch and Bitcoin merkle root of the first cp+1 hashes '
                   'of a chain that was visible at some moment between the request\'s start and its answer and that '
                   'reaches the checkpoint (linearizability; C11_header_safe, seen_sound), it is the chain visible at the '
